@@ -26,6 +26,27 @@ pub fn item_for(mode: Mode) -> &'static str {
     }
 }
 
+/// further inputs per mode for the option-equivalence contracts: rejected inputs included (the diagnostics must agree too)
+pub fn items_for(mode: Mode) -> Vec<&'static str> {
+    let mut v = vec![item_for(mode)];
+    match mode {
+        Mode::Fn => v.extend([
+            "fn f() -> i32 { 1 }",
+            "fn f(a: i32) -> i32 { a }",
+            "pub async fn f<D: A>(deps: D, W(w): W) {}",
+            "fn f(deps: &App, a: i32) {}",
+            "unsafe fn f<'a, T>(deps: &impl Any, t: &'a T) -> &'a T where T: Send { t }",
+        ]),
+        Mode::Mod => v.extend([
+            "mod m { pub fn f() -> i32 { 1 } }",
+            "mod m { pub fn f(a: i32) -> i32 { a } pub async fn g<D: A>(deps: &D) {} fn h() {} }",
+            "mod m { }",
+        ]),
+        Mode::Trait => v.extend(["trait Tr { async fn f(&self, a: i32) -> i32; fn g(&self); }", "pub trait Tr<T>: Sized where T: Send { fn f(&self, t: T) -> T; }"]),
+    }
+    v
+}
+
 pub fn attr_for(mode: Mode, opts: &[String]) -> String {
     match mode {
         Mode::Fn | Mode::Mod => {
@@ -198,22 +219,24 @@ fn c17_bare(_ctx: &Ctx, r: &mut Report) {
                     let eq_true = mk(Some(format!("{} = true", name)));
                     let eq_false = mk(Some(format!("{} = false", name)));
                     let absent = mk(None);
-                    let input = format!("{} {:?} {} api={}", v.name(), mode, name, api);
-                    r.guarded(&input, |r| {
-                        let a = expand_str(v, &bare, item_for(mode));
-                        let b = expand_str(v, &eq_true, item_for(mode));
-                        if a != b {
-                            r.fail("bare-vs-true", &input, format!("`{}` and `{} = true` expand differently", name, name));
-                        }
-                        // `no_deps = false` / `export = false` are the same as omitting them, before variant defaults
-                        if (*name == "no_deps") || (*name == "export" && matches!(v, Variant::Entrait | Variant::Unimock)) {
-                            let c = expand_str(v, &eq_false, item_for(mode));
-                            let d = expand_str(v, &absent, item_for(mode));
-                            if c != d {
-                                r.fail("false-vs-absent", &input, format!("`{} = false` and omitting it expand differently", name));
+                    for item in items_for(mode) {
+                        let input = format!("{} {:?} {} api={} item=`{}`", v.name(), mode, name, api, item);
+                        r.guarded(&input, |r| {
+                            let a = expand_str(v, &bare, item);
+                            let b = expand_str(v, &eq_true, item);
+                            if a != b {
+                                r.fail("bare-vs-true", &input, format!("`{}` and `{} = true` expand differently", name, name));
                             }
-                        }
-                    });
+                            // `no_deps = false` / `export = false` are the same as omitting them, before variant defaults
+                            if (*name == "no_deps") || (*name == "export" && matches!(v, Variant::Entrait | Variant::Unimock)) {
+                                let c = expand_str(v, &eq_false, item);
+                                let d = expand_str(v, &absent, item);
+                                if c != d {
+                                    r.fail("false-vs-absent", &input, format!("`{} = false` and omitting it expand differently", name));
+                                }
+                            }
+                        });
+                    }
                 }
             }
         }
